@@ -313,6 +313,7 @@ static void do_arena_fill_check(const Op& op) {
   if (as < 0 || as >= (int)H.arenas.size() || H.arenas[as].id == 0) { H.ops_noop++; return; }
   for (auto& kv : H.live) { Block* b = kv.second; if (b->p >= H.arenas[as].start && b->p < H.arenas[as].start + H.arenas[as].size) { H.ops_noop++; return; } }
   const MArena& ar = H.arenas[as];
+  if (mi_option_is_enabled(mi_option_disallow_arena_alloc)) { H.ops_noop++; return; }   // documented: nothing is allocated from arenas then
   collect_all_heaps(true);
   mi_heap_t* h = mi_heap_new_in_arena(ar.id);
   if (!h) { H.ops_noop++; return; }
